@@ -57,6 +57,7 @@ def readTopo (j : Json) : R Topo := do
   if t.cf.length != ci.length then throw "cf_indptr does not cover the entries" else
   pure t
 
+
 def ofInc (e : Inc) : Json := ofInts [(e.face : Int), (e.cell : Int), e.sign]
 
 /-- tag arithmetic on the tags of the grid and on a free-standing dictionary -/
@@ -70,7 +71,23 @@ def runTags (j : Json) : R Json := do
   let keys ← field j "keys" >>= jList jStr
   let app ← field j "app" >>= jTags
   let nodeUpd := updateBoundaryNodeTag t tg
+  let tdims ← fNats j "trace_dims"
+  let bf := ((allFaceTags tg).map indicesOf).getD []
+  let line := fieldD j "line" Json.null
+  let lineJ ← (match line with
+    | Json.null => pure Json.null
+    | v => do
+      let n ← jNat v
+      let l := line1d n
+      pure (obj [("nf", ofNat l.nf), ("nc", ofNat l.nc), ("nn", ofNat l.nn), ("cf", ofList ofInc l.cf),
+                 ("fn", ofList ofNats l.fn), ("same", Json.bool (decide (l.cf = t.cf ∧ l.fn = t.fn ∧ l.nf = t.nf ∧ l.nc = t.nc)))]))
   pure (obj [
+    ("all_bnd_nodes", ofOpt ofNats (getAllBoundaryNodes tg)),
+    ("bnd_nodes", ofOpt ofNats (getTagged tg "domain_boundary_nodes")),
+    ("bnd_faces", ofOpt ofNats (getTagged tg "domain_boundary_faces")),
+    ("internal_nodes", ofOpt ofNats (getInternalNodes t tg)),
+    ("trace", ofList (fun d => divJson (trace t bf d)) tdims),
+    ("line", lineJ),
     ("all_face", ofOpt ofNats ((allFaceTags tg).map indicesOf)),
     ("all_node", ofOpt ofNats ((allNodeTags tg).map indicesOf)),
     ("node_upd", ofOptTags (nodeUpd.map (fun r => r.filter (fun kv => standardNodeTags.contains kv.1)))),
